@@ -25,14 +25,14 @@ CLAIMS["C01"] = (
     "state = last write per key, hosts = function of the object set); model tied by a correspondence harness on the real k8s.Configuration; order-free owner spec evaluated on the implementation's hosts map",
     "Machine-checked proof (no axioms) that for every finite history the owner of every host in the model's hosts map is the least claimant (creationTimestamp, then UID) of the current object set, "
     "that a claimed host always has an owner which is a claimant, and that hosts / listener hosts / GetResources depend on the history only through the final object set (any permutation ending in the same set); "
-    "the model is run step by step against the real Configuration on generated histories and their re-orderings, and the order-free specification is evaluated on the implementation's own hosts map after every event.",
+    "the model is run step by step against the real Configuration on generated histories and their re-orderings, and the order-free specification is evaluated on the implementation's own hosts map after every event, together with `ValidHosts of every Ingress = the hosts the host map assigns to it`.",
     ARB_NOTE, "DESIGN.md 7 C01")
 CLAIMS["C02"] = (
     "Rocq theorems over all histories (listener+host owner = least claimant; active only on a listener of matching name and protocol, bound to its port/addresses) and over all listener lists "
     "(refinement of the validator's ip/port/protocol tables to a table-free specification; no conflicts, unique names, no reserved port, malformed entries inert, valid entries admitted); "
     "two correspondence harnesses (real Configuration; real createGlobalConfigurationValidator + ValidateGlobalConfiguration)",
     "Machine-checked proof (no axioms) of listener ownership and binding for every history, and of the admission guarantees for every listener list and every reserved-port set, including that the "
-    "entries the code records for rejected listeners never change a verdict; both models are run against the real code on every run and the decidable guarantees are evaluated on the real admitted lists.",
+    "entries the code records for rejected listeners never change a verdict; both models are run against the real code on every run and the decidable guarantees are evaluated on the real admitted lists; the binding that reaches NGINX is checked by applying the real change batches in order (shadow restricted to listener ports/addresses).",
     ARB_NOTE + " DNS-label and IP-address syntax are oracle bits probed from the real validator.", "DESIGN.md 7 C02")
 
 CLAIMS["C03"] = (
@@ -72,7 +72,7 @@ CLAIMS["C10"] = (
     "removes its file and nothing else; the same across restarts when nothing was deleted while down; the passthrough map is exact when no passthrough TransportServer is downgraded. Refuted with witnesses on model and real "
     "code: Ingress name injectivity (F08), restart after a delete while down (F10), stale passthrough host (F33).",
     "Trusted: Rocq kernel; the harness incl. its transcription of the main.go start-up sequence (guarded by a syntactic census); emptyDir surviving a container restart. Assumed: distinct hosts of served passthrough TransportServers "
-    "(C02); one object per kind/namespace/name. Not modelled: filesystem failures.", "DESIGN.md 7 C10")
+    "(C02); one object per kind/namespace/name. Not modelled: filesystem failures. Controller level: histories of the arb harness through the real LoadBalancerController.sync over a manager that remembers the per-resource files; one file per resource in GetResources() after every event (F33 repaired).", "DESIGN.md 7 C10")
 CLAIMS["C11"] = (
     "Rocq invariants over all operation histories of a model of LocalSecretStore + Configurator-as-SecretFileManager + LocalManager secret files, validity and derived bytes as universally quantified oracles; tied by a "
     "correspondence harness on the real store/Configurator/LocalManager with directory listings after every operation",
@@ -118,7 +118,7 @@ CLAIMS["C19"] = (
 CLAIMS["C04"] = (
     "Rocq theorems over all object sets / route lists / minion lists (routes attached = referenced, existing, reference-checked routes; minions = stored minions of the host; each path served by exactly the least-claimant minion; composition a function of the object set) + the declarative composition evaluated in Rocq on the implementation's GetResources() after every event",
     "Machine-checked proof (no axioms) that the route list of a VirtualServer is exactly the referenced, existing routes passing the per-reference check (whose meaning is proved), that the minions rendered with a master are exactly the stored minions of its host, that a minion's ValidPaths mark for a path is true iff it is the least claimant of that path among them (any number of minions and paths, K1), and that composition depends only on the current object set; only-the-owner-composes and the end-to-end connection to GetResources are decided by the declarative specification evaluated on the real resources of every generated history. One genuine defect (F44) repaired; F12 (route attached twice) is a known finding.",
-    ARB_NOTE + " The full VirtualServerRoute validator is an oracle; its per-reference part is modelled.", "DESIGN.md 7 C04")
+    ARB_NOTE + " The full VirtualServerRoute validator is an oracle; its per-reference part is modelled. Rendering projection: every active master is rendered through the real createMergeableIngresses + generateNginxCfgForMergeableIngresses and its (path, minion) locations are compared in Rocq with the declared ones. F12 and F44 repaired (C04_route_attached_once).", "DESIGN.md 7 C04")
 CLAIMS["C08"] = (
     "Rocq theorems over unbounded policy-reference lists and all dependency states of an executable model of generatePolicies / add*Config / getPolicies / policy inheritance / generateSSLConfig / addSSLConfig / Ingress JWT and "
     "basic auth; tied by a correspondence harness enumerating the whole kind x scope x failure mode x position x edition product through the real controller Ex constructors, Configurator and templates; a decidable fail-closed "
@@ -130,12 +130,12 @@ CLAIMS["C08"] = (
 CLAIMS["C16"] = (
     'Rocq theorem about pairs of histories (non-interference: replacing every foreign-class event by the deletion of the object leaves every change list, problem list and state unchanged, for all histories), stored objects all arrived with the own class; two-run non-interference, silent-removal and class-precedence specifications evaluated in Rocq on the real Configuration',
     'Machine-checked proof (no axioms) of non-interference at the arbitration level for every history, through a full-state invariant (hosts, listener hosts and both problem maps are functions of the stored objects) and idempotence of rebuilding; on every run every generated history and its erasure are run on the real Configuration and compared step by step, silent removal and the class predicate are evaluated on the real outputs. F04 (delete change keeps warnings on class change => Rejected report on a foreign object) is a known finding.',
-    ARB_NOTE + " Events and status writes are a function of the returned changes/problems (tied at controller level by the C05 check); Policies' class filter is covered by C08; leader-start status refresh is not covered.", "DESIGN.md 7 C16")
+    ARB_NOTE + " Also proved for every history: no report the controller derives names an object that is of a foreign class at that moment (C16_reports_never_name_foreign). Controller level (real LoadBalancerController.sync, production constructor, fake clientsets): recorded Events and status writes never name a foreign object; every event is offered to the real informer handler (a class change must be passed on); the real OnStartedLeading callback runs at the end of every history with Policies of own/foreign class present. F04 and F70 repaired. Not covered: the -weight-changes-dynamic-reload informer-side path.", "DESIGN.md 7 C16")
 
 CLAIMS["C05"] = (
     'Rocq theorems over all histories (delta suppression of problems is sound: every standing problem was sent and is the last one sent about its object; problem sets are functions of the object set; re-sync is silent) + the accumulated-report specification evaluated in Rocq at two levels: on the real change/problem lists, and on the Events recorded by the real LoadBalancerController.sync',
     "Machine-checked proof (no axioms) of the soundness of delta suppression for every history. The full invariant C05_truthful (active <=> last report is a success, for every known object after every event; statement in Properties/C05.v) is not yet proved (partial): it is decided on every run by the Rocq kernel evaluating it on the implementation's own change/problem lists of every generated history, and again on the Events that the real controller records for the same histories (the transcription of processChanges/processProblems is compared with those Events on every step; the validation error of the processed object must appear in an Event about it).",
-    ARB_NOTE + " Controller level: production constructor, fake clientsets, harness-filled informer stores, fake NGINX manager; status-subresource writes are recorded but only Events are judged. Converted cert-manager challenge Ingresses are excluded.", "DESIGN.md 7 C05")
+    ARB_NOTE + " Controller level: production constructor, fake clientsets, harness-filled informer stores, fake NGINX manager; status-subresource writes are recorded but only Events are judged. Reports are tied to object incarnations (a delete or a UID change forgets them); whether a minion serves a path is decided from the object set; every event is offered to the real informer handler (plain and tombstone deletes). F72 and F73 repaired. Converted cert-manager challenge Ingresses are excluded.", "DESIGN.md 7 C05")
 
 CLAIMS["C17"] = (
     "Rocq theorems about nil-shape models (every Go pointer dereference or [0] is an explicit deref in code order behind the code's own guards): finite shape spaces swept inside Rocq and lifted by completeness of "
